@@ -128,7 +128,21 @@ def main_met():
             accepted2 = True
         except ValueError:
             accepted2 = False
+        # the same forcing in a configuration without a reference origin (ref_lat / ref_lon are optional)
+        raw_noref = copy.deepcopy(raw)
+        raw_noref["domain"].pop("ref_lat")
+        raw_noref["domain"].pop("ref_lon")
+        try:
+            parse_config_dict(raw_noref)
+            accepted3 = True
+        except ValueError:
+            accepted3 = False
         sc = {"kind": "met", "m": m, "met": met_dict(m)}
+        if accepted3 != e["valid_spec"]:
+            chk.violation(
+                "forcing %s is %s by the property but a configuration without reference origin is %s when built" % (met_dict(m), "valid" if e["valid_spec"] else "invalid", "accepted" if accepted3 else "rejected"),
+                sc, klass=dict(klass_met(m), check="validity_noref"))
+            continue
         if accepted != e["valid_spec"] or accepted2 != e["valid_spec"]:
             chk.violation(
                 "forcing %s is %s by the property but validate() %s and parse_config_dict %s it"
